@@ -67,7 +67,11 @@ def main():
         diffs = []
         eq_forms = []
         for i, acc in enumerate(job["accepted"]):
-            a = parse_expr(acc, local_dict=env, evaluate=True).subs(eqsub)
+            try:
+                a = parse_expr(acc, local_dict=env, evaluate=True).subs(eqsub)
+            except Exception:      # noqa: BLE001
+                diffs.append(None)
+                continue
             d = term - a
             # 0 < u < 1 is made explicit by u = v/(1+v), v > 0 (so that 1 - u is known to be positive)
             d = d.subs(u, vpos / (1 + vpos))
@@ -90,9 +94,11 @@ def main():
             diffs.append(d)
         if verdict != "equal":
             # refutation: non-zero at an exact rational point for every accepted form
-            free = sorted({s for d in diffs for s in d.free_symbols}, key=lambda s: s.name)
+            free = sorted({s for d in diffs if d is not None for s in d.free_symbols} | set(term.free_symbols), key=lambda s: s.name)
             all_diff = True
             where = ""
+            if any(d is None for d in diffs):
+                diffs = []
             for d in diffs:
                 nz = False
                 for tp in TEST_POINTS:
@@ -104,7 +110,14 @@ def main():
                     vals[vpos] = tp["u"] / (1 - tp["u"])
                     try:
                         v = sp.N(d.subs(vals), 40)
-                        if v.is_number and abs(v) > sp.Float("1e-25"):
+                        # a relative difference below 1e-9 may be the rounding of a literal constant: not a refutation
+                        scale_ = 1
+                        if job.get("relative"):
+                            try:
+                                scale_ = 1 + abs(sp.N(term.subs(u, vpos / (1 + vpos)).subs(vals), 20))
+                            except Exception:      # noqa: BLE001
+                                scale_ = 1
+                        if v.is_number and abs(v) > (sp.Float("1e-9") * scale_ if job.get("relative") else sp.Float("1e-25")):
                             nz = True
                             where = "at %s the difference is %s" % ({str(k): str(v_) for k, v_ in vals.items()}, sp.N(v, 8))
                             break
